@@ -42,8 +42,8 @@ def run(ctx):
     if ctx.discharged != ctx.obligations:
         ctx.violation("proof:assumptions", "a C09 theorem depends on axioms: %r" % blocks, {"broken": "Print Assumptions", "output": out[-800:]}, found_input=False)
 
-    n_near = 500 if quick else 6000
-    n_pop = 80 if quick else 1200
+    n_near = 500 if quick else 4000
+    n_pop = 80 if quick else 600
     cases, verd, shapes = [], collections.Counter(), collections.Counter()
     for i in range(n_near):
         p, src, tag = gen.gen_ambig_candidate(random.Random(ctx.rng.getrandbits(48)))
